@@ -180,6 +180,9 @@ def side_conditions(ctx, rid):
             k = op_const(st["rv"].get("use")) if "use" in st["rv"] else None
             w[pl["p"][-1]["n"]] = k["v"] if k else "param"
     ctx.check(w.get("draw_borders") == "false", rid, "side:raw_mode-disables-borders", rm.span, rm.id, str(w))
+    # S9: INV-SHRINK's premise (the decrement in the shrink loop cannot underflow)
+    from .. import widths as _w
+    _w.rule_min_size_matches_shrink(ctx, rid)
     # S8: word strings are built only under `if let Some(width)`
     at = F.one("WrappedBlock::<T>::add_text")
     pcs = [(bb, t) for bb, t in at.calls(lambda cd, t: ends(cd, "TaggedLine::<T>::push_char"))
